@@ -447,3 +447,37 @@ PROPS['C06'] = dict(
            _mpi_unit('chi_nosplit_p3_c1', 3, 1, 1, tiers=(T,)), _mpi_unit('chi_split_p3_c3', 3, 2, 3, tiers=(T,))] +
           [dict(u, name='c16_' + u['name']) for u in PROPS['C16']['units'] if u['name'] in ('dispatch_p2', 'dispatch_p3')],
 )
+
+_BET = [1, '1/2']
+PROPS['C12'] = dict(
+    claim='End-to-end chain of the real code (operator container, GreensFunction and TwoParticleGF prepare/compute/evaluation, Vertex4::value) on '
+          'free-fermion inputs that need no eigen-solver: two modes with SYMBOLIC levels eps_i and SYMBOLIC occupation factors x_i; the single-particle '
+          'function satisfies G_ii(z)(z-eps_i) = 1, G_ij = 0 for symbolic z, and the vertex vanishes for every index quadruple at Matsubara triples '
+          'covering all coincidence patterns - as identities in (eps, x), decided by z3 (sum-of-monomials rewriting + nlsat).',
+    bounds={Q: 'partition by particle number (blocks 1,2,1): all 16 quadruples x 7 frequency triples x beta in {1, 1/2}, non-degenerate and exactly '
+               'degenerate (eps1 == eps0) levels; one-block partition: 4 quadruples x 3 triples',
+            T: 'one-block partition: all quadruples and triples; symbolic beta for 4 quadruples (time-capped)'},
+    assumptions=['double read as exact real', 'generic position: x_i in [1e-3, 1-1e-3], away from 1/2 and from each other, |eps|, |eps0 +- eps1| >= 1e-3 '
+                 '(or exactly degenerate)', 'weights have the product form of a free-fermion Gibbs state (no relation between x_i and eps_i is needed)'],
+    outside=['more than two modes; non-diagonal h (needs the eigen-solver)', 'energies closer than the resonance tolerance without being equal',
+             'symbolic beta in the quick tier'],
+    units=[dict(name='termlist_cancel_g', harness='h_termlist', defs=['KIND=0', 'NADD=3'], witnesses=['done', 'exact_cancellation', 'empty_after_cancellation'],
+                validate=[{'p0': 1, 'p1': 1, 'p2': 0, 'c0': 2, 'c1': -2, 'c2': 3, 'Pa': 1, 'Pb': '-1/2'}]),
+           dict(name='termlist_cancel_nr', harness='h_termlist', defs=['KIND=1', 'NADD=3'], witnesses=['done', 'exact_cancellation', 'empty_after_cancellation']),
+           dict(name='wick_m1_prop', harness='h_wick', defs=['MODEL=1'], split={'mode': [0]}, max_loop=200000, witnesses=['operators_computed', 'propagator_checked'],
+                validate=[{'mode': 0, 'eps0': '1/3', 'eps1': '-1/2', 'x0': '1/5', 'x1': '2/3', 'beta': 1}]),
+           dict(name='wick_m2_prop', harness='h_wick', defs=['MODEL=2'], split={'mode': [0]}, max_loop=200000, witnesses=['operators_computed', 'propagator_checked']),
+           dict(name='wick_m1_vertex', harness='h_wick', defs=['MODEL=1'], split={'mode': [1], 'quad': R(16), 'freq': R(7), 'beta': [1]}, max_loop=200000, job_timeout=150,
+                query_timeout_ms=120000, witnesses=['vertex_checked', 'non_vanishing_chi'],
+                validate=[{'mode': 1, 'quad': 5, 'freq': 1, 'eps0': '1/3', 'eps1': '-1/2', 'x0': '1/5', 'x1': '2/3', 'beta': 1}]),
+           dict(name='wick_m1_vertex_degenerate', harness='h_wick', defs=['MODEL=1', 'DEGEN=1'], split={'mode': [1], 'quad': R(16), 'freq': R(7), 'beta': [1]}, job_timeout=150,
+                max_loop=200000, query_timeout_ms=120000, witnesses=['vertex_checked', 'non_vanishing_chi']),
+           dict(name='wick_m2_vertex_some', harness='h_wick', defs=['MODEL=2'], split={'mode': [1], 'quad': [5, 6, 9, 10], 'freq': [1, 4, 5], 'beta': [1]}, job_timeout=150,
+                max_loop=200000, query_timeout_ms=300000, witnesses=['vertex_checked', 'non_vanishing_chi']),
+           dict(name='wick_m2_vertex_all', harness='h_wick', defs=['MODEL=2'], split={'mode': [1], 'quad': R(16), 'freq': R(7), 'beta': [1]}, tiers=[T],
+                max_loop=200000, query_timeout_ms=300000, witnesses=['vertex_checked']),
+           dict(name='wick_m1_vertex_beta_half', harness='h_wick', defs=['MODEL=1'], split={'mode': [1], 'quad': R(16), 'freq': R(7), 'beta': ['1/2']}, tiers=[T],
+                max_loop=200000, query_timeout_ms=300000, witnesses=['vertex_checked']),
+           dict(name='wick_m1_vertex_symbeta', harness='h_wick', defs=['MODEL=1'], split={'mode': [1], 'quad': [5, 6, 9, 10], 'freq': [0, 4]}, tiers=[T],
+                max_loop=200000, query_timeout_ms=300000, witnesses=['vertex_checked'])],
+)
